@@ -39,6 +39,11 @@ def run(ck):
     ck.run_rule(g6_colour_tables)
     ck.run_rule(g7_g8_g9_pawns)
     ck.run_rule(g10_perft)
+    # perft counts and castling availability along a line of play also rest on the successor function: the rights / board updates of C02
+    from . import c02 as _c02
+    _ctx = {}
+    for _r in (_c02.collect_sets, _c02.u0_u4_piece_updates, _c02.u1_rook_relocation, _c02.u2_rights):
+        ck.run_rule(_r, _ctx)
 
 
 def is_call(t, suffix):
